@@ -119,22 +119,37 @@ def check(fx, rep, tier):
                   'a frame with an `error` member that neither error type recognises can be decoded as a success: no attempt before Reply<_> has a required '
                   '`error` member accepting every JSON value, and Reply does not deny unknown members (accepted idioms: catch-all struct with '
                   '`error: IgnoredAny | serde_json::Value`; #[serde(deny_unknown_fields)] on Reply)', det)
-        # R04.3 bypass
+        # R04.3 bypass: any zlink / serde / serde_json function instantiated with the bare success shape as a type argument
         bad = []
         n_dec = 0
         for body in crate.bodies:
             if body.in_test or body.mac or not (body.path.startswith('connection::')):
                 continue
+            if 'write_connection' in body.path:
+                continue            # the sending side serialises Reply<_>; it decodes nothing
             for b, t in body.iter_terms('call'):
-                a = t['callee'].get('args') or ''
-                nm = t['callee'].get('name')
-                if nm in ('read_message', 'deserialize', 'from_slice', 'from_str', 'from_reader', 'decode') or 'Deserialize' in (t['callee'].get('trait') or ''):
+                c = t['callee']
+                a = c.get('args') or ''
+                if 'write_connection' in (c.get('def') or '') or 'json_ser' in (c.get('def') or '') or (c.get('name') or '').startswith(('send_', 'enqueue')):
+                    continue
+                nm = c.get('name')
+                d = c.get('def') or ''
+                local_or_serde = c.get('local') or c.get('krate') in ('serde', 'serde_json', 'serde_core') or d.startswith(('serde', 'connection::', 'reply::'))
+                if not local_or_serde:
+                    continue
+                if d.startswith('reply::Reply') or (c.get('impl_self') or '').startswith('reply::Reply'):
+                    continue        # methods of Reply itself (constructors / accessors)
+                if nm in ('read_message', 'deserialize', 'from_slice', 'from_str', 'from_reader') or 'Deserialize' in (c.get('trait') or '') or a:
                     n_dec += 1
-                    # top-level generic args
-                    if re.search(r"(^\[|, )reply::Reply<", a):
-                        bad.append('%s::<Reply<_>> at %s' % (nm, C.where(body, b)))
+                if re.search(r"(^\[|, )reply::Reply<", a):
+                    bad.append('%s::<Reply<_>> at %s' % (nm, C.where(body, b)))
+            for b, i, st in body.iter_assigns():
+                # a generic decoder passed as a function value: `decode::<Reply<_>>`
+                for o in mir.rv_operands(st['rv']):
+                    if o.get('k') == 'const' and o.get('fn') and (o.get('fn_local') or 'serde' in o['fn']) and re.search(r"(^\[|, )reply::Reply<", o.get('fn_args') or ''):
+                        bad.append('%s::<Reply<_>> (as a function value) at %s' % (o['fn'].split('::')[-1], C.where(body, b, i)))
         rep.check(not bad and n_dec > 0, 'R04.3', 'connection|no-direct-success-decode|%s' % cfg, 'zlink-core/src/connection',
-                  'no decode call in the connection code is instantiated with the bare success shape Reply<_> (%d decode calls inspected)' % n_dec,
+                  'no function of the connection code (or of serde / serde_json called from it) is instantiated with the bare success shape Reply<_> (%d instantiations inspected)' % n_dec,
                   'a frame can be decoded directly as the success shape, bypassing the error classification: %s' % bad)
         # R04.4 arms
         msw = None
